@@ -23,7 +23,7 @@ def classify_factory(tu):
             if sev == "nonfatal":
                 return ("sym", "nonfatal")
             return ("sym", "send?")
-        if n == A["side_effect_action"] or n == A["return_handler_call"]:
+        if n == lib.side_effect_action(tu) or n == A["return_handler_call"]:
             return ("sym", "action")
         if lib.noreturn_call(tu, ev):
             return ("term", "noreturn")
